@@ -126,7 +126,7 @@ def _alpha_depth_rule(ctx, blp):
         for tag, want in (("Direct", sorted(depths)), ("Jpeg", [0, 8])):
             lost = []
             for raw in range(0, 17):
-                env = {"content": TAGS[tag], "alpha_bits_raw": raw, "__leaf__": (lambda r_: TAGS.get(r_))}
+                env = {"content": TAGS[tag], "alpha_bits_raw": raw, "__leaf__": (lambda r_: TAGS.get(r_)), "__fns__": {g.path: g for g in blp.fn_list if g.hir and g.kind != "Closure"}}
                 if ev(let["init"], env) != raw and raw in want:
                     lost.append(raw)
             if lost:
@@ -385,7 +385,17 @@ def run(ctx):
             except _NoEval as e:
                 bad = ("?", "?", str(e))
             halves = [hirq.render(l["init"]) for l in hirq.find(gm.hir["body"], "let") if l["pat"].get("k") == "bind" and re.search(r">> 1|/ 2", hirq.render(l["init"]))]
-            unclamped = [h_ for h_ in halves if "max(1)" not in h_]
+            # clamped at 1: evaluated, not matched as text (`(w >> 1).max(1)`, `cmp::max(w >> 1, 1)`, `if w > 1 { w / 2 } else { 1 }`, ...)
+            from .c10 import _ival as _iv, _NoEval as _NE
+            unclamped = []
+            for l_ in hirq.find(gm.hir["body"], "let"):
+                if l_["pat"].get("k") == "bind" and l_.get("init") is not None and re.search(r">> 1|/ 2", hirq.render(l_["init"])):
+                    try:
+                        vals = [_iv(l_["init"], {"width": d_, "height": d_}, {}) for d_ in (1, 2, 3, 5)]
+                        if vals != [1, 1, 1, 2]:
+                            unclamped.append(hirq.render(l_["init"]))
+                    except _NE:
+                        unclamped.append(hirq.render(l_["init"]))
             if bad:
                 ctx.bad(R_gen, "generate_mipmaps|stop-test", "%s:%d" % (gm.file, stop["ln"]), "stop test `%s` is %s for a %sx%s image" % (hirq.render(stop["c"])[:60], bad[2], bad[0], bad[1]),
                         "BlpHeader::mipmaps_count (which every parser trusts) counts levels until the LARGER dimension reaches 1: a non-square texture is written with fewer levels than its header announces — BLP0 fails to parse back, JPEG/DXT parse phantom empty levels, and the chain never reaches 1×1")
